@@ -60,11 +60,11 @@ def split_reads(w):
     K = [r for r in K if r["name"] not in knames]
     return {"A": A, "B": B, "C": [dict(r) for r in A], "E": E, "G": G, "H": H, "K": K,
             # D: two files with labels, F: two files without labels (technical replicas: IsoQuant groups by file name)
-            "D": [A[0::2], A[1::2]], "F": [B[0::2], B[1::2]]}
+            "D": [A[0::2], A[1::2]], "F": [B[0::2], B[1::2]], "L": None}
 
 
-LABELS = {"D": ["drug1", "drug2"]}
-MULTI = ("D", "F")
+LABELS = {"D": ["drug1", "drug2"], "L": ["ctrl_b", "ctrl_a"]}
+MULTI = ("D", "F", "L")            # L: the SAME two files as D under other labels (experiments of one run may share input files)
 
 
 def prepare(scratch, tag):
@@ -76,10 +76,13 @@ def prepare(scratch, tag):
     seqs = syn.genome_sequences(w)
     exps = split_reads(w)
     for name, reads in exps.items():
+        if name == "L":
+            continue
         if name in MULTI:
             paths[name] = [syn.write_bam(w, os.path.join(d, "%s_lib%d.bam" % (name, i + 1)), reads=rr, seqs=seqs) for i, rr in enumerate(reads)]
         else:
             paths[name] = syn.write_bam(w, os.path.join(d, name + ".bam"), reads=reads, seqs=seqs)
+    paths["L"] = list(paths["D"])
     return w, d, paths
 
 
@@ -257,12 +260,12 @@ def run(ctx):
             if n == 3 and not (set(seq) <= set("ABC") or set(seq) <= set("ADE") or set(seq) <= set("BDF") or set(seq) <= set("DEF")):
                 continue
             seqs.append(seq)
-    seqs += [("G",), ("H",), ("G", "H"), ("H", "G"), ("A", "H"), ("H", "A"), ("G", "B"), ("K",), ("A", "K"), ("K", "A"), ("B", "K")]
+    seqs += [("G",), ("H",), ("G", "H"), ("H", "G"), ("A", "H"), ("H", "A"), ("G", "B"), ("K",), ("A", "K"), ("K", "A"), ("B", "K"), ("D", "L"), ("L", "D"), ("L", "F")]
     if not quick:
         seqs += [("G", "H", "A"), ("A", "G", "H"), ("G", "A", "H")]
     jobs = []
     for seq in seqs:
-        new = bool(set(seq) & set("DEFGHK"))
+        new = bool(set(seq) & set("DEFGHKL"))
         for threads in (1, 2):
             for syntax in ("yaml", "list"):
                 if quick and new and (threads == 2) != (syntax == "list"):
